@@ -62,6 +62,17 @@ class Svc(rpyc.Service):
     def exposed_nested(self, x, cb): return cb(x) + 1
     def exposed_fire(self, x, cb): rpyc.async_(cb)(x); return x * 2
 
+    def on_connect(self, conn):
+        self.conn = conn
+
+    def exposed_bye(self):
+        """the handler itself closes the connection it is being served on (its reply can then not be sent)"""
+        try:
+            self.conn.close()
+        except HookError:
+            pass
+        return "bye"
+
 
 class Hang(BaseException):
     """raised by the harness when a wait makes no progress for a long stretch of virtual time (a request that would hang)"""
@@ -106,6 +117,7 @@ def make_pair(plan, clock, hook_raises=False):
     sa.fault, sb.fault = fault_for(sa), fault_for(sb)
     A = Connection(Svc("A", hook_raises), Channel(sa), config={"sync_request_timeout": 5})
     B = Connection(Svc("B", hook_raises), Channel(sb), config={"sync_request_timeout": 5, "allow_public_attrs": True})
+    A._local_root.conn, B._local_root.conn = A, B        # (Connection built directly: Service._connect / on_connect did not run)
     log = {"A": [], "B": []}
     disp_eof = {"A": False, "B": False}
     must = {"A": set(), "B": set()}
@@ -166,8 +178,8 @@ def snapshot(conn, svc):
             "pending": len(conn._request_callbacks)}
 
 
-WORKLOADS = ["sync", "async", "nested", "refs", "fire"]
-CLOSES = ["AB", "BA", "A", "B", "none"]
+WORKLOADS = ["sync", "async", "nested", "refs", "fire", "closeinhandler", "pendingclose"]
+CLOSES = ["AB", "BA", "A|B", "B|A", "A", "B", "none"]
 
 
 def run_case(workload, closes, plan, hook_raises=False):
@@ -282,10 +294,29 @@ def run_case(workload, closes, plan, hook_raises=False):
                 n = A.root.keep(local_obj)
                 return (len(lst), n)
             req("refs", f, (4, 1))
+        elif workload == "closeinhandler":
+            req("bye", lambda: A.root.bye(), "bye")           # value (if the reply got out first) or EOFError; never a hang
+            req("after", lambda: A.root.add(1, 2), 3)
+        elif workload == "pendingclose":
+            def f():
+                ar = rpyc.async_(A.root.add)(4, 5)            # B has not been pumped yet: the request is pending when B closes
+                try:
+                    B.close()
+                except HookError:
+                    pass
+                return ar.value
+            req("async", f, 9)
         elif workload == "fire":
             req("fire", lambda: A.root.fire(7, lambda x: x + 1), 14)
             req("after", lambda: A.root.add(1, 2), 3)
-        for who in closes:
+        seq = []
+        for ch_ in closes:
+            if ch_ == "|":
+                if seq:
+                    seq[-1] = (seq[-1][0], False)      # "A|B": B closes while A's close request is still unread (both at once)
+            elif ch_ in "AB":
+                seq.append((ch_, True))
+        for who, pump_after in seq:
             if who in "AB":
                 conn = A if who == "A" else B
                 try:
@@ -296,8 +327,8 @@ def run_case(workload, closes, plan, hook_raises=False):
                     results.append(("close" + who, "hook-error-from-close" if hook_raises else "exc-from-close:HookError", None))
                 except Exception as e:
                     results.append(("close" + who, "exc-from-close:" + type(e).__name__, None))
-                # let the other side notice
-                for _ in range(3):
+                # let the other side notice (unless the other side is about to close at the same moment)
+                for _ in range(3 if pump_after else 0):
                     if not (pumpB() or pumpA()):
                         break
         # a request issued after the end
@@ -377,12 +408,13 @@ def run(ctx):
     model = C.Model("lifecycle"); model = model if model.available() else None
     facts = gen_facts()
     ctx.coverage_extra["rule"] = ("workloads {sync, async, nested callback, references both ways, fire-and-forget callback} x close orders {AB, BA, A, B, none}; for each a clean run counts the "
+                                  "(AB/BA: the second side closes after it has noticed; A|B, B|A: both close at once, each with the other's close request unread) - a clean run counts the "
                                   "transport calls of both sides, then one failure is injected at every individual poll/read/write call index of each side, and for writes additionally after "
                                   "k bytes of the packet (quick: k in {0,1,len/2,len-1}; thorough: more offsets); non-trivial = a fault was actually hit; distinct by (workload, closes, fault)")
     mcases, meta = [], []
     total_points = 0
     for wl in WORKLOADS:
-        for cl in (CLOSES if not ctx.quick else ["AB", "BA", "none"]):
+        for cl in (CLOSES if not ctx.quick else ["AB", "BA", "A|B", "B|A", "A", "none"]):
             base = run_case(wl, cl, None)
             oracle(ctx, {"workload": wl, "closes": cl, "fault": None}, base)
             ctx.case((wl, cl, None), nontrivial=True, sample={"workload": wl, "closes": cl, "io_calls": {k: len(v) for k, v in base["io"].items()}, "results": base["results"]})
@@ -437,7 +469,7 @@ def run(ctx):
     except ImportError:
         pass
     ctx.coverage_extra["io_points_enumerated"] = total_points
-    ctx.coverage_extra["exhaustive"] = True
+    ctx.coverage_extra["exhaustive"] = "every transport call index of both sides; byte offsets inside a written packet are sampled (quick: 0,1,7,13)"
     if model and mcases:
         outs = model.batch(mcases)
         for (case, nm, f), m in zip(meta, outs):
